@@ -253,6 +253,75 @@ def scan(root, kb, markers, problems):
                 problems.append({'problem': 'plaintext visible at rest', 'what': label, 'where': where[:50]})
 
 
+async def more_runs_then_nonces(root, kb, settings, problems, markers):
+    """C05 (no two ciphertexts under one key share a nonce): several further runs, each with a FRESH Repository object as
+    the CLI makes them (same tree again, a tree of one empty file, add-key, delete + clean), then every nonce found at
+    rest - chunk objects, both sections of every snapshot body, the private section of every key - must be distinct."""
+    nb = (settings['encryption'].get('cipher') or {}).get('nonce_bits', 96) // 8
+    keys = [kb]
+    empty = root / 'only-empty'
+    empty.mkdir()
+    (empty / 'nothing').write_bytes(b'')
+    steps = [('snapshot', root / 'src'), ('snapshot', empty), ('snapshot', root / 'src'), ('add_key', None), ('snapshot', empty), ('delete_clean', None),
+             ('snapshot', root / 'src')]
+    seen = {}         # nonce -> where
+    dupes = []
+
+    def note_nonce(blob, where):
+        n = bytes(blob[:nb])
+        if n in seen and seen[n] != where:
+            dupes.append({'nonce': n.hex(), 'first': seen[n], 'again': where})
+        seen.setdefault(n, where)
+
+    def harvest():
+        for p in (root / 'repo').rglob('*'):
+            if not p.is_file() or p.name == 'config':
+                continue
+            rel = p.relative_to(root / 'repo').as_posix()
+            raw = p.read_bytes()
+            if rel.startswith('data/'):
+                note_nonce(raw, 'chunk ' + rel[-12:])
+            elif rel.startswith('snapshots/'):
+                body = loads(raw)
+                note_nonce(body['chunks'], 'chunk table of snapshot ' + rel[-12:])
+                note_nonce(body['data'], 'private data of snapshot ' + rel[-12:])
+        for i, k in enumerate(keys):
+            note_nonce(loads(k)['private'], f'private section of key #{i}')
+
+    harvest()
+    last = None
+    for what, arg in steps:
+        r = Repository(Local(root / 'repo'), concurrent=2, quiet=True, cache_directory=None)
+        with lib.quiet():
+            await r.unlock(password=PW, key=kb)
+            if what == 'snapshot':
+                last = await r.snapshot(paths=[arg], note='again')
+            elif what == 'add_key':
+                res = await r.add_key(password=b'another password', shared=True)
+                keys.append(r.serialize(res.new_key))
+            elif last is not None:
+                await r.delete_snapshots([last.name], confirm=False)
+                await r.clean()
+        await r.close()
+        harvest()
+    # one LONG-LIVED object (library use): snapshot, delete it and clean, snapshot the same data again, then look again
+    r = Repository(Local(root / 'repo'), concurrent=2, quiet=True, cache_directory=None)
+    with lib.quiet():
+        await r.unlock(password=PW, key=kb)
+        fresh = root / 'fresh'
+        fresh.mkdir()
+        (fresh / 'secret-name.txt').write_bytes(markers[0][1] + b'-second-file-never-stored-before' * 3)
+        s1 = await r.snapshot(paths=[fresh], note='a-very-private-note')
+        await r.delete_snapshots([s1.name], confirm=False)
+        await r.clean()
+        await r.snapshot(paths=[fresh], note='a-very-private-note')
+    await r.close()
+    harvest()
+    scan(root, kb, markers, problems)
+    for d in dupes[:3]:
+        problems.append({'problem': 'two ciphertexts at rest carry the same nonce', **d})
+
+
 def main():
     payload = lib.read_payload()
     tier, seed, prop = payload.get('tier', 'quick'), int(payload.get('seed', 0)), payload.get('prop', 'C14')
@@ -287,6 +356,7 @@ def main():
                                ('content digest of a file', H(files_spec['sub/b.bin'])), ('chunk digest', snap.chunks[0]),
                                ('directory name', str(root).encode())]
                     scan(root, kb, markers, problems)
+                    asyncio.run(more_runs_then_nonces(root, kb, settings, problems, markers))
             except Exception as e:
                 import traceback
                 problems.append({'problem': 'exception', 'error': f'{type(e).__name__}: {e}'[:200], 'tb': traceback.format_exc()[-400:]})
